@@ -84,6 +84,50 @@ fn fixed_put(ops: &[Sys]) -> bool {
     }
 }
 
+/// thorough tier: seeded random histories over the crash-relevant API (small payloads; deletes and
+/// updates only address frames that are committed and active at that point)
+fn random_history(rng: &mut Rng, n_ops: usize, seed_base: u64) -> Vec<HOp> {
+    let mut ops = vec![];
+    let mut committed: Vec<(u64, bool)> = vec![]; // (frame id, active)
+    let mut pending_frames = 0u64;
+    let mut next_id = 0u64;
+    let mut s = seed_base;
+    for _ in 0..n_ops {
+        let active: Vec<u64> = committed.iter().filter(|c| c.1).map(|c| c.0).collect();
+        let r = rng.below(100);
+        let mut commit_now = |committed: &mut Vec<(u64, bool)>, pending_frames: &mut u64, next_id: &mut u64| {
+            for _ in 0..*pending_frames { committed.push((*next_id, true)); *next_id += 1; }
+            *pending_frames = 0;
+        };
+        if r < 45 {
+            s += 1;
+            let kind = if rng.chance(1, 3) { 1 } else { 0 };
+            ops.push(HOp::Put { kind, len: rng.usize(20, 900), seed: s });
+            pending_frames += 1;
+        } else if r < 57 && !active.is_empty() && pending_frames == 0 {
+            let id = *rng.pick(&active);
+            ops.push(HOp::Delete { id });
+            for c in committed.iter_mut() { if c.0 == id { c.1 = false; } }
+        } else if r < 67 && !active.is_empty() && pending_frames == 0 {
+            let id = *rng.pick(&active);
+            s += 1;
+            ops.push(HOp::Update { id, kind: 0, len: rng.usize(20, 400), seed: s });
+            for c in committed.iter_mut() { if c.0 == id { c.1 = false; } }
+            pending_frames += 1;
+        } else if r < 85 {
+            ops.push(HOp::Commit);
+            commit_now(&mut committed, &mut pending_frames, &mut next_id);
+        } else if r < 93 {
+            ops.push(HOp::Reopen);
+            commit_now(&mut committed, &mut pending_frames, &mut next_id);
+        } else {
+            ops.push(HOp::Vacuum);
+            commit_now(&mut committed, &mut pending_frames, &mut next_id);
+        }
+    }
+    ops
+}
+
 fn main() {
     if child_main() {
         return;
@@ -123,6 +167,13 @@ fn main() {
         for (n, h) in corpus() {
             if only.as_deref().map(|o| o == n).unwrap_or(true) { histories.push((n.to_string(), h)); }
         }
+        if args.thorough && only.is_none() {
+            let mut rng = Rng::new(args.seed);
+            for i in 0..8u64 {
+                let n = rng.usize(5, 10);
+                histories.push((format!("random-{i}"), random_history(&mut rng, n, 1000 * (i + 1))));
+            }
+        }
     }
 
     for (name, history) in &histories {
@@ -144,6 +195,25 @@ fn main() {
                 let c = canon_step(&rec.ops, sp.begin, sp.end, &sim, FILE_NAME);
                 let r: Vec<String> = rle(&c).into_iter().map(|(t, n)| if n > 1 { format!("{t}*{n}") } else { t }).collect();
                 println!("  step {} {} ok={} {}: {}", sp.index, sp.name, sp.ok, sp.err, r.join(" "));
+            }
+        }
+        // coverage tags: did the log wrap / grow in this recording?
+        {
+            let mut sim = rec.initial.clone();
+            let mut seen_rec = false;
+            for s in &rec.ops {
+                if let SysT::Write { ino, off, data } = s {
+                    let f = &sim.inodes[*ino].data;
+                    if f.len() >= 4096 && f.starts_with(b"MV2\0") {
+                        let wal = le64(f, 24);
+                        if *off >= 4096 && *off < 4096 + wal && classify_write(f, *off, data, None) == "rec" {
+                            if *off == 4096 && seen_rec { sum.branch("wal-wrapped"); }
+                            seen_rec = true;
+                        }
+                        if *off == 0 && data.len() == 4096 && le64(data, 24) > wal && wal > 0 && sim.dir.get(FILE_NAME) == Some(ino) { sum.branch("wal-grown-in-place"); }
+                    }
+                }
+                sim.apply(s);
             }
         }
         let ev = eval_process_crashes(&exe, &scratch, history, &rec, false);
@@ -238,6 +308,10 @@ fn main() {
         }
         println!("history {name}: ops={} crash_points={} distinct_images={} failing_points={} record={:.1}s total={:.1}s",
             rec.ops.len(), ev.points.len(), ev.images.len(), bad, t_rec.as_secs_f64(), t_all.as_secs_f64());
+    }
+    if only.is_none() && args.mode != "replay" {
+        sum.expect_branches(&["tie1-put", "tie1-staged", "crash-in-put", "crash-in-commit", "crash-in-vacuum", "crash-in-batch_begin",
+            "crash-in-commit_skip_indexes", "crash-in-finalize_indexes", "wal-wrapped", "wal-grown-in-place", "matched-acked", "matched-acked+inflight"]);
     }
     if let Some(d) = &drv { sum.model_requests = d.requests; }
     let _ = std::fs::remove_dir_all(&scratch);
